@@ -1187,10 +1187,7 @@ class Sum(Expression):
                 return One()
             elif ranges > set(children):
                 keep = ranges - set(children)
-                return Sum.safe(
-                    expression=One(),
-                    ranges=frozenset(v for k, v in children.items() if k in keep),
-                )
+                return Sum.safe(expression=One(), ranges=frozenset(keep))
             elif ranges < set(children):
                 keep = set(children) - ranges
                 return expression._new(
